@@ -8,6 +8,7 @@ if ! git diff --quiet; then echo "/repo has uncommitted changes; refusing"; exit
 trap 'cd /repo && git checkout -- . && git clean -fdq -e "*.db" 2>/dev/null; echo "[mutcheck] /repo restored: $(git -C /repo status --short | wc -l) modified files"' EXIT
 git apply "$patch" || { echo "patch does not apply"; exit 2; }
 cd /verif
+export VERIF_EVIDENCE_DIR=/var/tmp/mutcheck-evidence   # never overwrite the committed evidence with runs on a changed tree
 for p in "$@"; do
   echo "=== $p with $(basename $(dirname $patch))/$(basename $patch)"
   timeout 1500 ./check "$p" --tier quick 2>&1 | grep -E "^(VIOLATION|KNOWN-FINDING|check |  what|  broken|  also)" | cut -c1-400 | head -12
